@@ -9,7 +9,7 @@ RULE = ("random arrays of 1-3 D x 12 dtypes (bool, 8 ints, 2 floats, values incl
         "layouts x connectivity elements (cross, box, arbitrary 3^d, even-sized, one-sided, None/int shorthands) x optional "
         "out= buffer; the result is compared with the extracted Coq model and with an independent evaluation of the "
         "definition (equivalence closure of in-image adjacencies + first-appearance numbering). thorough: all boolean images "
-        "<=4x4 with 4-/8-neighbourhoods and all 512 3x3 elements on all images <=3x3. Non-trivial: >=2 non-zero pixels")
+        "<=4x4 with 4-/8-neighbourhoods and all 512 3x3 elements on all images <=3x3. Non-trivial: >=2 non-zero pixels Added: float16 images with fractional values; the default element after the arrays returned by morph.get_structuring_elem were overwritten by their caller; rows, columns, lines (1.2-5 million pixels), a serpentine and stripes labelled in a process of their own.")
 NOT_PROVED = ["both Coq models (class merging, and the parent-array union-find with path compression proved equal to it) are "
               "hand-written models of _labeled.cpp: their tie to the compiled code is the correspondence check",
               "std::map is modelled as an association list"]
